@@ -28,8 +28,10 @@ class _Discard(Exception):
     pass
 
 
-class NativeTimeout(BaseException):
-    """The real code did not come back within the wall-clock limit (e.g. a changed loop that never yields)."""
+class NativeTimeout(KeyboardInterrupt):
+    """The real code did not come back within the wall-clock limit (e.g. a changed loop that never yields, or a
+    virtual-time schedule that never ends).  Derived from KeyboardInterrupt on purpose: asyncio swallows any other
+    BaseException raised inside a callback (it logs it and keeps the loop running), but re-raises this one."""
 
 
 class wall_clock_limit:
@@ -46,7 +48,8 @@ class wall_clock_limit:
             def onalarm(signum, frame):
                 raise NativeTimeout(f"no result after {self.seconds} s of wall-clock time")
             self.old = signal.signal(signal.SIGALRM, onalarm)
-            signal.setitimer(signal.ITIMER_REAL, self.seconds)
+            # repeating: scenario code may swallow the first one (`except BaseException`), the next one comes 5 s later
+            signal.setitimer(signal.ITIMER_REAL, self.seconds, 5.0)
         return self
 
     def __exit__(self, *a):
@@ -329,6 +332,11 @@ def main():
     if len(sys.argv) > 1 and sys.argv[1] != "-":
         sys.exit(replay_file(sys.argv[1]))
     req = json.loads(sys.stdin.read())
+    import logging   # the package's own log output (tracebacks in a tight failure loop can be millions of lines) is not a result
+    lg = logging.getLogger("pyairtouch")
+    lg.addHandler(logging.NullHandler())
+    lg.propagate = False
+    logging.getLogger("asyncio").setLevel(logging.CRITICAL)
     if req.get("inputs") is not None:
         res = run_native(req["oset"], req["inputs"])
     else:
